@@ -5,6 +5,10 @@
   norm_rotate         the arithmetic of `self.rotate = (int_value(..) + 360) % 360`
   US_LETTER           `us_letter = (0.0, 0.0, 612.0, 792.0)`                  (PDFPage._parse_mediabox)
   normalize_rect      PDFPage._normalize_rect                                 (straight-line)
+  parse_mediabox      PDFPage._parse_mediabox: which default on `value is None` / on PDFValueError (read from the
+  parse_cropbox       returns); the parse expression in between is asserted to be the modelled one (`parseBox`)
+  KEY_RESOURCES/KEY_MEDIABOX/KEY_CROPBOX/KEY_ROTATE   the entries `PDFPage.__init__` reads for these attributes
+                      (+ assertion: `_parse_cropbox(.., self.mediabox)` after `self.mediabox` was assigned)
   page_ctm            the rotation -> CTM if/elif table of pdfinterp.PDFPageInterpreter.process_page
   begin_page_bbox     converter.PDFLayoutAnalyzer.begin_page: box of the LTPage
 
@@ -184,7 +188,7 @@ def rotate_function(page_mod):
     g = found[0]
     ok = (isinstance(g, ast.Call) and isinstance(g.func, ast.Attribute) and g.func.attr == "get"
           and is_attr(g.func.value, "self", "attrs") and len(g.args) == 2
-          and isinstance(g.args[0], ast.Constant) and g.args[0].value == "Rotate"
+          and isinstance(g.args[0], ast.Constant) and isinstance(g.args[0].value, str)
           and isinstance(g.args[1], ast.Constant) and isinstance(g.args[1].value, int))
     if not ok:
         raise P.Untranslatable('self.rotate: int_value argument is not self.attrs.get("Rotate", <int>)')
@@ -233,6 +237,90 @@ def us_letter(page_mod):
                 raise P.Untranslatable("us_letter is not a 4-tuple of numbers")
             return [Fraction(repr(x)) for x in v]
     raise P.Untranslatable("us_letter not found")
+
+
+# ---------------------------------------------------------------- PDFPage.__init__: which entry feeds which attribute
+
+EXPECTED_BOX_PARSE = "self._normalize_rect(parse_rect((resolve1(val) for val in list_value(value))))"
+
+
+def box_parser(page_mod, name: str, lean_name: str, extra_param: str) -> str:
+    """`_parse_mediabox` / `_parse_cropbox`: `if value is None: return D1` then
+    `try: return <normalised parse_rect> except PDFValueError: return D2`; D1, D2 are read from the source."""
+    fn = P.find_function(page_mod, "PDFPage." + name)
+    defaults = {"us_letter": "US_LETTER"}
+    if extra_param:
+        defaults[extra_param] = extra_param
+    body = [x for x in no_docstring(fn.body) if not is_log_call(x)
+            and not (isinstance(x, ast.Assign) and isinstance(x.targets[0], ast.Name) and x.targets[0].id == "us_letter")]
+    params = [a.arg for a in fn.args.args]
+    if params != ["self", "value"] + ([extra_param] if extra_param else []):
+        raise P.Untranslatable(f"{name}: parameters {params} differ from the modelled ones")
+
+    def ret_default(stmts, what):
+        stmts = [x for x in stmts if not is_log_call(x) and not (isinstance(x, ast.Expr) and isinstance(x.value, ast.Constant))]
+        if len(stmts) != 1 or not isinstance(stmts[0], ast.Return) or not isinstance(stmts[0].value, ast.Name) \
+                or stmts[0].value.id not in defaults:
+            raise P.Untranslatable(f"{name}: {what} does not just return one of {sorted(defaults)}")
+        return defaults[stmts[0].value.id]
+    if len(body) != 2 or not isinstance(body[0], ast.If) or not isinstance(body[1], ast.Try):
+        raise P.Untranslatable(f"{name}: expected `if value is None: ...` followed by `try: ... except PDFValueError: ...`")
+    if ast.unparse(body[0].test) != "value is None" or body[0].orelse:
+        raise P.Untranslatable(f"{name}: first test is not `value is None`")
+    d1 = ret_default(body[0].body, "the `value is None` branch")
+    tr = body[1]
+    if tr.orelse or tr.finalbody or len(tr.handlers) != 1 or tr.handlers[0].type is None \
+            or ast.unparse(tr.handlers[0].type) != "PDFValueError":
+        raise P.Untranslatable(f"{name}: expected exactly one handler, for PDFValueError")
+    if len(tr.body) != 1 or not isinstance(tr.body[0], ast.Return) \
+            or ast.dump(tr.body[0].value) != ast.dump(expr_of(EXPECTED_BOX_PARSE)):
+        raise P.Untranslatable(f"{name}: the try body is not `return {EXPECTED_BOX_PARSE}`")
+    d2 = ret_default(tr.handlers[0].body, "the PDFValueError handler")
+    extra = f" ({extra_param} : Rect)" if extra_param else ""
+    return (f"/-- `PDFPage.{name}`: `value is None` → `{d1}`; otherwise the normalised `parse_rect` of the resolved\n"
+            f"elements, or `{d2}` when that raises PDFValueError (`parsed = none`). -/\n"
+            f"def {lean_name} (value_is_none : Bool) (parsed : Option Rect){extra} : Rect :=\n"
+            f"  if value_is_none then {d1} else match parsed with | some r => r | none => {d2}\n\n")
+
+
+def init_keys(page_mod) -> str:
+    """The dictionary entries `PDFPage.__init__` reads for resources / mediabox / cropbox / rotate, and the
+    assertion that CropBox is parsed with `self.mediabox` (assigned before) as its default."""
+    import re
+    init = P.find_function(page_mod, "PDFPage.__init__")
+    assigns, order = {}, []
+    for x in init.body:
+        tgt = x.targets[0] if isinstance(x, ast.Assign) and len(x.targets) == 1 else \
+            x.target if isinstance(x, ast.AnnAssign) else None
+        if tgt is not None and isinstance(tgt, ast.Attribute) and isinstance(tgt.value, ast.Name) \
+                and tgt.value.id == "self" and x.value is not None:
+            if tgt.attr in assigns:
+                raise P.Untranslatable(f"PDFPage.__init__: self.{tgt.attr} is assigned twice")
+            assigns[tgt.attr] = ast.unparse(x.value)
+            order.append(tgt.attr)
+    pats = {
+        "resources": r"^resolve1\(self\.attrs\.get\('([^']+)', dict\(\)\)\)$",
+        "mediabox": r"^self\._parse_mediabox\(self\.attrs\.get\('([^']+)'\)\)$",
+        "cropbox": r"^self\._parse_cropbox\(self\.attrs\.get\('([^']+)'\), self\.mediabox\)$",
+        "rotate": r"^\(int_value\(self\.attrs\.get\('([^']+)', -?\d+\)\) \+ 360\) % 360$|^.*int_value\(self\.attrs\.get\('([^']+)', -?\d+\)\).*$",
+        "attrs": r"^dict_value\(attrs\)$",
+    }
+    keys = {}
+    for attr, pat in pats.items():
+        if attr not in assigns:
+            raise P.Untranslatable(f"PDFPage.__init__: no assignment to self.{attr}")
+        m = re.match(pat, assigns[attr])
+        if not m:
+            raise P.Untranslatable(f"PDFPage.__init__: self.{attr} = {assigns[attr]} differs from the modelled shape")
+        keys[attr] = next((g for g in m.groups() if g), None) if m.groups() else None
+    if not (order.index("attrs") < order.index("mediabox") < order.index("cropbox")):
+        raise P.Untranslatable("PDFPage.__init__: attrs, mediabox, cropbox are not assigned in this order")
+    out = []
+    for attr, lean in (("resources", "KEY_RESOURCES"), ("mediabox", "KEY_MEDIABOX"), ("cropbox", "KEY_CROPBOX"),
+                       ("rotate", "KEY_ROTATE")):
+        out.append(f"/-- `PDFPage.__init__`: `self.{attr}` is computed from `self.attrs.get({keys[attr]!r}…)`. -/\n"
+                   f"def {lean} : String := {P.lean_string(keys[attr])}\n\n")
+    return "".join(out)
 
 
 # ---------------------------------------------------------------- loop skeletons and their tests
@@ -463,6 +551,9 @@ def generate(lean_dir: str):
     out.append("def US_LETTER : Rect := (" + ", ".join(rat_lit(x) for x in us_letter(page_mod)) + ")\n\n")
     out.append(T({}, default_kind="rat").function(P.find_function(page_mod, "PDFPage._normalize_rect"),
                                                    lean_name="normalize_rect") + "\n")
+    out.append(box_parser(page_mod, "_parse_mediabox", "parse_mediabox", ""))
+    out.append(box_parser(page_mod, "_parse_cropbox", "parse_cropbox", "mediabox"))
+    out.append(init_keys(page_mod))
     out.append(T({}, default_kind="rat").function(page_ctm_function(interp_mod)) + "\n")
     known = {"apply_matrix_rect": "PdfVerif.Gen.Utils.apply_matrix_rect"}
     out.append(T(known, default_kind="rat").function(begin_page_function(conv_mod)) + "\n")
